@@ -8,7 +8,7 @@ KEYMAP = {
     'chunk-exceeds-max-length': ['C01'], 'write-returned-bad-count': ['C05', 'C01'],
     'workload-incomplete': ['C02'], 'handshake-never-completed': ['C02'], 'connection-lost-under-fair-loss': ['C02'],
     'frames-processed-exceed-frames-sent': ['C04'], 'forged-': ['C04'], 'hostile-': ['C03'],
-    'amplification-limit-exceeded': ['C07'], 'stateless-reset-': ['C07'], 'short-initial-': ['C07'],
+    'amplification-limit-exceeded': ['C07'], 'stateless-reset-': ['C07'], 'stateless-response-': ['C07'], 'short-initial-': ['C07'],
     'connection-lost-reported-twice': ['C08'], 'drained-notified-twice': ['C08'], 'output-after-drained': ['C08', 'C20'],
     'close-': ['C08'], 'idle-': ['C08'], 'drain-': ['C08'], 'lost-': ['C08'],
     'finished-event-twice': ['C11'], 'finished-without-finish': ['C11'],
